@@ -242,12 +242,14 @@ def _short(cells, limit=420):
 
 
 class Workbook:
-    def __init__(self, ctx, cells=None, models=None, world=None, sheets=None, names=None, cached=None, ignore_sheets=None):
+    def __init__(self, ctx, cells=None, models=None, world=None, sheets=None, names=None, cached=None, ignore_sheets=None, max_items=None):
         self.ctx = ctx
         self.world = world if world is not None else World()
         self.world.max_depth = 150
         self.world.budget = 800000
         self.world.call_counts = {}
+        if max_items is not None:
+            self.world.max_items = max_items          # loops over more items than this are not unrolled (Unmodelled)
         import sys
         if sys.getrecursionlimit() < 30000:
             sys.setrecursionlimit(30000)
